@@ -69,6 +69,7 @@ func (c *Conn) handleAppend(tag string, dec *imapwire.Decoder) error {
 	}
 
 	if lit.Size() > appendLimit {
+		discardNonSyncLiteral(lit, nonSync)
 		return &imap.Error{
 			Type: imap.StatusResponseTypeNo,
 			Code: imap.ResponseCodeTooBig,
@@ -76,6 +77,7 @@ func (c *Conn) handleAppend(tag string, dec *imapwire.Decoder) error {
 		}
 	}
 	if err := c.acceptLiteral(lit.Size(), nonSync); err != nil {
+		discardNonSyncLiteral(lit, nonSync)
 		return err
 	}
 
@@ -105,6 +107,15 @@ func (c *Conn) handleAppend(tag string, dec *imapwire.Decoder) error {
 		return err
 	}
 	return c.writeAppendOK(tag, data)
+}
+
+// discardNonSyncLiteral consumes the data of a refused non-synchronizing
+// literal: the client sends it without waiting for the server, so it'd be
+// parsed as commands otherwise.
+func discardNonSyncLiteral(lit *imapwire.LiteralReader, nonSync bool) {
+	if nonSync {
+		io.Copy(io.Discard, lit)
+	}
 }
 
 func (c *Conn) writeAppendOK(tag string, data *imap.AppendData) error {
